@@ -20,11 +20,17 @@ def _reexec():
     # that depend on it repeat, and never write bytecode into /repo.
     if os.environ.get('VERIF_KEEP_HASHSEED') == '1' and os.environ.get('VERIF_REEXEC') == '1':
         return
-    if os.environ.get('PYTHONHASHSEED') != '0' or os.environ.get('VERIF_REEXEC') != '1':
+    if os.environ.get('PYTHONHASHSEED') != '0' or os.environ.get('VERIF_REEXEC') != '1' or os.environ.get('MALLOC_ARENA_MAX') != '1':
         env = dict(os.environ)
         env['PYTHONHASHSEED'] = '0'
         env['VERIF_REEXEC'] = '1'
         env['PYTHONDONTWRITEBYTECODE'] = '1'
+        # One malloc arena for all threads: glibc otherwise hands every new thread an arena chosen by what exiting threads of
+        # the previous run have given back *so far* (real timing), and objects too large for pymalloc - type objects such as
+        # beartype's forward-reference proxy classes created inside task threads - get timing-dependent addresses, hence
+        # hashes, hence memo-table probe orders, hence event digests.
+        env['MALLOC_ARENA_MAX'] = '1'
+        env['GLIBC_TUNABLES'] = 'glibc.malloc.tcache_count=0'      # (no per-thread cache flushed back at thread exit)
         env.pop('BEARTYPE_IS_COLOR', None)
         # Address-space randomisation off (inherited by every worker and child): beartype iterates
         # sets of types, whose order follows object addresses, so event digests repeat only then.
